@@ -9,7 +9,7 @@ import re
 
 from ..model import walk_shallow, call_name, is_self_attr, dotted_name, enclosing_function
 from ..util import (has_call, find_calls, assigned_value, const_str, unparse, kw, arg_or_kw, enclosing_stmt,
-                    guards_of, call_tail)
+                    guards_of, call_tail, name_bound, bound_names)
 from .. import mutate as M
 
 EXPLANATION = ("Table-agreement and wiring rules over ProcessTasks (producer of T1..T4), Experiment.run (T0, pipelines), "
@@ -47,13 +47,19 @@ def _tcodes_produced(fn):
     return out
 
 
+def _item(enc):
+    loops = [s for s in enc.body if isinstance(s, ast.For) and unparse(s.iter) == "transactions"]
+    return unparse(loops[0].target) if loops else "item"
+
+
 def _arms(enc):
     """(code, If node) for each `item[0] == "Tn"` arm of the encoder."""
+    ITEM = _item(enc)
     arms = []
     for n in walk_shallow(enc):
         if isinstance(n, ast.If) and isinstance(n.test, ast.Compare) and len(n.test.ops) == 1 and isinstance(n.test.ops[0], ast.Eq):
             c = const_str(n.test.comparators[0])
-            if c and re.fullmatch(r"T\d+", c) and unparse(n.test.left) == "item[0]":
+            if c and re.fullmatch(r"T\d+", c) and unparse(n.test.left) == f"{ITEM}[0]":
                 arms.append((c, n))
     return arms
 
@@ -63,6 +69,7 @@ def r1_codes(ctx, enc, proc, run_):
                        "yields exactly one record and every yield goes through the one encoder = dumps(minimize(x))")
     produced = _tcodes_produced(proc) + _tcodes_produced(run_)
     arms = _arms(enc)
+    ENCODER = name_bound(enc, lambda v: isinstance(v, ast.Lambda), "encoder")
     handled = {c for c, _ in arms}
     ctx.floor("C07.R1", "T-codes produced", len(produced), 5)
     ctx.floor("C07.R1", "encoder arms", len(arms), 5)
@@ -77,7 +84,7 @@ def r1_codes(ctx, enc, proc, run_):
         ctx.ob("C07.R1", RES, "TransactionEncode.filter", arm, f"arm {c} yields exactly one record", ok, stmt=f"arm {c} yields")
         for y in ys:
             v = getattr(y, "value", None)
-            ok = isinstance(v, ast.Call) and call_name(v) == "encoder" and len(v.args) == 1
+            ok = isinstance(v, ast.Call) and call_name(v) == ENCODER and len(v.args) == 1
             ctx.ob("C07.R1", RES, "TransactionEncode.filter", y, "record goes through the single encoder", ok)
             if ok and isinstance(v.args[0], (ast.List, ast.Tuple)) and v.args[0].elts:
                 tag = const_str(v.args[0].elts[0])
@@ -88,13 +95,24 @@ def r1_codes(ctx, enc, proc, run_):
     for y in others:
         v = getattr(y, "value", None)
         ctx.ob("C07.R1", RES, "TransactionEncode.filter", y, "record goes through the single encoder",
-               isinstance(v, ast.Call) and call_name(v) == "encoder")
-    encs = assigned_value(enc, "encoder")
+               isinstance(v, ast.Call) and call_name(v) == ENCODER)
+    encs = assigned_value(enc, ENCODER)
     ok = len(encs) == 1 and isinstance(encs[0], ast.Lambda) and isinstance(encs[0].body, ast.Call) \
         and (call_name(encs[0].body) or "").endswith("json.dumps") and encs[0].body.args \
         and unparse(encs[0].body.args[0]) == f"minimize({encs[0].args.args[0].arg})"
     ctx.ob("C07.R1", RES, "TransactionEncode.filter", enclosing_stmt(encs[0]) if encs else enc,
            "encoder = json.dumps(minimize(x)) -- normalisation applied exactly once", ok, stmt="encoder")
+    # the log must be ASCII-only: DiskSink writes utf-8 bytes but DiskSource decodes with the platform's default encoding,
+    # so only \\uXXXX-escaped JSON makes the file path equal the in-memory path on every platform (C07 statement, last sentence)
+    kws = {k.arg: unparse(k.value) for e in encs if isinstance(e, ast.Lambda) and isinstance(e.body, ast.Call) for k in e.body.keywords}
+    ctx.ob("C07.R1", RES, "TransactionEncode.filter", enclosing_stmt(encs[0]) if encs else enc,
+           "records are written as ASCII-only JSON (ensure_ascii is not switched off), so reading back does not depend on the locale", kws.get("ensure_ascii", "True") == "True",
+           stmt="encoder ascii", detail={"dumps_keywords": kws})
+    jd = ctx.fn("coba/json.py", "dumps")
+    names = [a.arg for a in jd.args.kwonlyargs]
+    dflt = {a: unparse(d) for a, d in zip(names, jd.args.kw_defaults) if d is not None}
+    passes = any(isinstance(c, ast.Call) and call_name(c) == "json.dumps" and any(k.arg == "ensure_ascii" and unparse(k.value) == "ensure_ascii" for k in c.keywords) for c in walk_shallow(jd))
+    ctx.ob("C07.R1", "coba/json.py", "dumps", jd, "coba.json.dumps escapes non-ASCII by default and forwards the flag to json.dumps", dflt.get("ensure_ascii") == "True" and passes, stmt="json.dumps default ascii")
     # arms are a chain over the transaction stream: every item of the input is dispatched
     loops = [s for s in enc.body if isinstance(s, ast.For) and unparse(s.iter) == "transactions"]
     ctx.ob("C07.R1", RES, "TransactionEncode.filter", loops[0] if loops else enc, "all transactions are dispatched in order (single loop, no break)",
@@ -113,8 +131,10 @@ def r2_tags(ctx, enc, dec, res):
     ctx.rule("C07.R2", "tags, positions [tag,id,payload] and the '_packed' key agree between TransactionEncode, "
                        "TransactionDecode, TransactionResult and Environments.from_result")
     emitted = {}
+    ENCODER = name_bound(enc, lambda v: isinstance(v, ast.Lambda), "encoder")
+    ITEM = _item(enc)
     for y in walk_shallow(enc):
-        if isinstance(y, ast.Yield) and isinstance(y.value, ast.Call) and call_name(y.value) == "encoder" and y.value.args:
+        if isinstance(y, ast.Yield) and isinstance(y.value, ast.Call) and call_name(y.value) == ENCODER and y.value.args:
             a = y.value.args[0]
             if isinstance(a, (ast.List, ast.Tuple)) and a.elts and const_str(a.elts[0]):
                 emitted[const_str(a.elts[0])] = a
@@ -123,10 +143,18 @@ def r2_tags(ctx, enc, dec, res):
     readers = [(RES, "TransactionResult.filter", res)]
     fr = ctx.fn(ENVS, "Environments.from_result")
     readers.append((ENVS, "Environments.from_result", fr))
+    def _trx(fn):
+        for n in walk_shallow(fn):
+            if isinstance(n, ast.Compare) and len(n.ops) == 1 and isinstance(n.ops[0], ast.Eq) and const_str(n.comparators[0]) in ("E", "L", "V", "I") \
+                    and isinstance(n.left, ast.Subscript) and unparse(n.left.slice) == "0" and isinstance(n.left.value, ast.Name):
+                return n.left.value.id
+        return "trx"
+
     for rel, qual, fn in readers:
         handled = {}
+        TRX = _trx(fn)
         for n in walk_shallow(fn):
-            if isinstance(n, ast.Compare) and len(n.ops) == 1 and isinstance(n.ops[0], ast.Eq) and unparse(n.left) == "trx[0]":
+            if isinstance(n, ast.Compare) and len(n.ops) == 1 and isinstance(n.ops[0], ast.Eq) and unparse(n.left) == f"{TRX}[0]":
                 c = const_str(n.comparators[0])
                 if c:
                     handled[c] = n
@@ -139,29 +167,47 @@ def r2_tags(ctx, enc, dec, res):
     # positions: E/L/V -> [tag, id, params]; I -> [tag, ids, {"_packed": rows}]
     for tag in ("E", "L", "V"):
         a = emitted.get(tag)
-        ok = a is not None and len(a.elts) == 3 and unparse(a.elts[1]) == "item[1]" and unparse(a.elts[2]) == "item[2]"
+        ok = a is not None and len(a.elts) == 3 and unparse(a.elts[1]) == f"{ITEM}[1]" and unparse(a.elts[2]) == f"{ITEM}[2]"
         ctx.ob("C07.R2", RES, "TransactionEncode.filter", a or enc, f"'{tag}' record is [tag, id, params] taken from item[1], item[2]", ok, stmt=f"layout {tag}")
     a = emitted.get("I")
-    ok = a is not None and len(a.elts) == 3 and unparse(a.elts[1]) == "item[1]" and isinstance(a.elts[2], ast.Dict) \
+    ok = a is not None and len(a.elts) == 3 and unparse(a.elts[1]) == f"{ITEM}[1]" and isinstance(a.elts[2], ast.Dict) \
         and [const_str(k) for k in a.elts[2].keys] == ["_packed"]
     ctx.ob("C07.R2", RES, "TransactionEncode.filter", a or enc, "'I' record is [tag, id-triple, {'_packed': columns}]", ok, stmt="layout I")
     a = emitted.get("experiment")
     ctx.ob("C07.R2", RES, "TransactionEncode.filter", a or enc, "'experiment' record carries item[1]",
-           a is not None and len(a.elts) == 2 and unparse(a.elts[1]) == "item[1]", stmt="layout experiment")
-    # reader side positions
-    table = {"E": "env_rows", "L": "lrn_rows", "V": "val_rows"}
+           a is not None and len(a.elts) == 2 and unparse(a.elts[1]) == f"{ITEM}[1]", stmt="layout experiment")
+    # reader side positions: each parameter tag accumulates into its own dict, which later fills its own table
+    TRX = _trx(res)
+    accs = {}
     for n in walk_shallow(res):
-        if isinstance(n, ast.If) and isinstance(n.test, ast.Compare) and unparse(n.test.left) == "trx[0]":
+        if isinstance(n, ast.If) and isinstance(n.test, ast.Compare) and unparse(n.test.left) == f"{TRX}[0]":
             tag = const_str(n.test.comparators[0])
-            body = " ".join(unparse(s) for s in n.body)
-            if tag in table:
-                ok = f"{table[tag]}[trx[1]].update(" in body and "trx[2]" in body
-                ctx.ob("C07.R2", RES, "TransactionResult.filter", n, f"'{tag}' params (trx[2]) are stored under id trx[1] in {table[tag]}", ok, stmt=f"read {tag}")
+            calls = [c for s in n.body for c in walk_shallow(s) if isinstance(c, ast.Call) and call_tail(c) == "update"]
+            if tag in ("E", "L", "V"):
+                ok = len(calls) == 1 and isinstance(calls[0].func.value, ast.Subscript) and unparse(calls[0].func.value.slice) == f"{TRX}[1]" and f"{TRX}[2]" in unparse(calls[0].args[0])
+                if ok:
+                    accs[tag] = unparse(calls[0].func.value.value)
+                ctx.ob("C07.R2", RES, "TransactionResult.filter", n, f"'{tag}' params (payload) are stored under the record id in that tag's accumulator", ok, stmt=f"read {tag}")
             if tag == "I":
-                ok = "int_rows[tuple(trx[1])] = trx[2]" in body
-                ctx.ob("C07.R2", RES, "TransactionResult.filter", n, "'I' payload (trx[2]) is stored under the id triple trx[1]", ok, stmt="read I")
+                st = [x for s in n.body for x in walk_shallow(s) if isinstance(x, ast.Assign) and isinstance(x.targets[0], ast.Subscript)
+                      and unparse(x.targets[0].slice) == f"tuple({TRX}[1])" and unparse(x.value) == f"{TRX}[2]"]
+                if st:
+                    accs["I"] = unparse(st[0].targets[0].value)
+                ctx.ob("C07.R2", RES, "TransactionResult.filter", n, "'I' payload is stored under the id triple", len(st) == 1, stmt="read I")
             if tag == "experiment":
-                ctx.ob("C07.R2", RES, "TransactionResult.filter", n, "experiment meta is trx[1]", "exp_dict = trx[1]" in body, stmt="read experiment")
+                st = [x for s in n.body if isinstance(s, ast.Assign) for x in [s] if unparse(x.value) == f"{TRX}[1]"]
+                ctx.ob("C07.R2", RES, "TransactionResult.filter", n, "experiment meta is the record's second field", len(st) == 1, stmt="read experiment")
+    ctx.ob("C07.R2", RES, "TransactionResult.filter", res, "the four tags accumulate into four distinct containers", len(set(accs.values())) == 4 and len(accs) == 4,
+           detail={"accumulators": accs}, stmt="distinct accumulators")
+    # each accumulator fills the table of its own kind: <table>.insert([{"<kind>_id": id, **row} for id,row in sorted(acc.items())])
+    for tag, col in (("E", "environment_id"), ("L", "learner_id"), ("V", "evaluator_id")):
+        ins = [c for c in walk_shallow(res) if isinstance(c, ast.Call) and call_tail(c) == "insert" and c.args and isinstance(c.args[0], ast.ListComp)
+               and accs.get(tag) and f"sorted({accs[tag]}.items())" == unparse(c.args[0].generators[0].iter)]
+        ok = len(ins) == 1 and isinstance(ins[0].args[0].elt, ast.Dict) and const_str(ins[0].args[0].elt.keys[0]) == col
+        tbl = unparse(ins[0].func.value) if ins else None
+        cols = [unparse(v) for v in assigned_value(res, tbl)] if tbl else []
+        ok = ok and bool(cols) and f"columns=['{col}']" in cols[0]
+        ctx.ob("C07.R2", RES, "TransactionResult.filter", ins[0] if ins else res, f"'{tag}' rows fill the table whose id column is {col}", ok, stmt=f"table for {tag}")
     for rel, qual, fn in readers:
         uses = [x for x in walk_shallow(fn) if isinstance(x, ast.Constant) and x.value == "_packed"]
         inner = []
@@ -170,12 +216,14 @@ def r2_tags(ctx, enc, dec, res):
                 inner += [x for x in ast.walk(f2) if isinstance(x, ast.Constant) and x.value == "_packed"]
         ctx.ob("C07.R2", rel, qual, (uses + inner)[0] if uses + inner else fn, "reader unpacks the '_packed' payload key", bool(uses + inner), stmt="_packed key")
     # decoder: version first, everything else json-decoded in order
-    ver = [x for x in walk_shallow(dec) if isinstance(x, ast.Compare) and "ver_row[1]" in unparse(x.left)]
+    VROW = name_bound(dec, lambda v: "json.loads(next(transactions))" == unparse(v), "ver_row")
+    ver = [x for x in walk_shallow(dec) if isinstance(x, ast.Compare) and f"{VROW}[1]" in unparse(x.left)]
     ok = bool(ver) and all(isinstance(v.comparators[0], ast.Constant) and v.comparators[0].value == 4 for v in ver)
     ev = emitted.get("version")
     okw = ev is not None and len(ev.elts) == 2 and isinstance(ev.elts[1], ast.Constant) and ev.elts[1].value == 4
     ctx.ob("C07.R2", RES, "TransactionDecode.filter", ver[0] if ver else dec, "reader's accepted version equals the version the writer emits (4)", ok and okw, stmt="version agreement")
-    vchecks = [x for x in walk_shallow(res) if isinstance(x, ast.Compare) and unparse(x.left) == "version" and isinstance(x.ops[0], ast.NotEq)]
+    VER = name_bound(res, lambda v: "next(transactions)[1]" == unparse(v), "version")
+    vchecks = [x for x in walk_shallow(res) if isinstance(x, ast.Compare) and unparse(x.left) == VER and isinstance(x.ops[0], ast.NotEq)]
     ctx.ob("C07.R2", RES, "TransactionResult.filter", vchecks[0] if vchecks else res, "TransactionResult rejects versions other than the writer's",
            bool(vchecks) and all(isinstance(v.comparators[0], ast.Constant) and v.comparators[0].value == 4 for v in vchecks), stmt="version check")
 
@@ -263,6 +311,7 @@ def r4_one_path(ctx, run_):
 
 
 CONTROLS = [
+    ("non-ascii log", RES, M.replace_expr("TransactionEncode.filter", "coba.json.dumps(minimize(x), separators=(',', ':'))", "coba.json.dumps(minimize(x), separators=(',', ':'), ensure_ascii=False)"), "C07.R1"),
     ("emit T5", PROC, M.replace_expr("ProcessTasks.filter", "'T3'", "'T5'"), "C07.R1"),
     ("bypass encoder", RES, M.replace_expr("TransactionEncode.filter", "encoder(['L', item[1], item[2]])", "coba.json.dumps(['L', item[1], item[2]])"), "C07.R1"),
     ("rename _packed on writer", RES, M.replace_expr("TransactionEncode.filter", "{'_packed': rows_T}", "{'_rows': rows_T}"), "C07.R2"),
